@@ -14,12 +14,16 @@ from .. import common, options
 from ..common import violation
 
 POOL = [
-    ("LUX", "ms_example_resilient", 120),     # population < 1e7, catastrophe nutrition, all resilient foods
-    ("USA", "yaml_net_baseline", 120),        # baseline nutrition, no resilient foods, continued feed
-    ("IND", "ms_worst", 48),                  # short horizon, no storage between years, threshold 10
-    ("WOR", "g_example_resilient", 120),      # world scale
-    ("ARG", "yaml_nw_reduced", 84),           # another horizon, reduced breeding
-    ("SLV", "ms_example_resilient", 120),     # triggers the model's rewrite of known-bad options
+    ("LUX", "ms_example_resilient", 120, {}),     # population < 1e7, catastrophe nutrition, all resilient foods
+    ("USA", "yaml_net_baseline", 120, {}),        # baseline nutrition, no resilient foods, continued feed
+    ("IND", "ms_worst", 48, {}),                  # short horizon, no storage between years, threshold 10
+    ("WOR", "g_example_resilient", 120, {}),      # world scale
+    ("ARG", "yaml_nw_reduced", 84, {}),           # another horizon, reduced breeding
+    ("SLV", "ms_example_resilient", 120, {}),     # triggers the model's rewrite of known-bad options
+    # the same country again with numeric overrides: anything remembered per country (tables, caches) shows here
+    ("USA", "yaml_net_baseline", 120, {"meat_cattle_head": 20000000, "kg_meat_per_large_animal": 150.0,
+                                        "CROP_PRODUCTION_MULTIPLIER": 0.5, "MINIMUM_PERCENT_FED_BEFORE_NONHUMAN_CONSUMPTION_ALLOWED": 50}),
+    ("ARG", "yaml_nw_reduced", 48, {"chicken_head": 1000000, "GRASSES_PRODUCTION_MULTIPLIER": 2, "RATIO_STOCKS_UNTOUCHED": 0.5}),
 ]
 
 
@@ -47,7 +51,11 @@ def digest_result(res):
     return h.hexdigest()[:16], parts
 
 
-def one_run(iso, pn, nm, title):
+def label_of(p):
+    return "%s/%s/%d%s" % (p[0], p[1], p[2], "+overrides" if p[3] else "")
+
+
+def one_run(iso, pn, nm, title, overrides=None):
     import copy
     import numpy as np
     from src.scenarios.run_model_no_trade import ScenarioRunnerNoTrade
@@ -55,6 +63,7 @@ def one_run(iso, pn, nm, title):
     from src.food_system.food import Food
     opts = options.clean(options.preset(pn))
     opts["NMONTHS"] = nm
+    opts.update(overrides or {})
     before = copy.deepcopy(opts)
     with common.quiet():
         if iso == "WOR":
@@ -76,9 +85,9 @@ def seq_job(seq):
     common.sandbox()
     out = []
     for i, idx in enumerate(seq):
-        iso, pn, nm = POOL[idx]
+        iso, pn, nm, ov = POOL[idx]
         try:
-            dg, parts, unmodified, conv = one_run(iso, pn, nm, "c14_%d_%s" % (os.getpid(), i))
+            dg, parts, unmodified, conv = one_run(iso, pn, nm, "c14_%d_%s" % (os.getpid(), i), ov)
             out.append({"run": idx, "digest": dg, "parts": parts, "options_unmodified": unmodified, "globals": conv})
         except BaseException as e:
             out.append({"run": idx, "error": repr(e)[:200]})
@@ -114,8 +123,8 @@ def run(tier, seed):
         for pos, run in enumerate(r["runs"]):
             n_runs += 1
             idx = run["run"]
-            label = "%s/%s/%d" % POOL[idx]
-            hist = [("%s/%s/%d" % POOL[i]) for i in r["seq"][:pos]]
+            label = label_of(POOL[idx])
+            hist = [label_of(POOL[i]) for i in r["seq"][:pos]]
             key = {"run": label, "history": " -> ".join(hist) or "(alone)"}
             rp = {"seq": r["seq"][:pos + 1]}
             if "error" in run:
@@ -132,7 +141,7 @@ def run(tier, seed):
                     label, " -> ".join(hist), diff[:6], run["parts"].get("headline"), base["parts"].get("headline")), rp))
     for (idx, hs), a in alone:
         n_runs += 1
-        label = "%s/%s/%d" % POOL[idx]
+        label = label_of(POOL[idx])
         if "error" in a:
             if "error" not in ref.get(idx, {}):
                 vs.append(violation("run_fails_after_history", {"run": label, "history": "(alone, PYTHONHASHSEED=%s)" % hs}, a["error"], {"seq": [idx]}))
@@ -144,9 +153,9 @@ def run(tier, seed):
            "distinct_outcomes": len({run.get("digest") for r in res for run in r["runs"]}),
            "runs": n_runs, "histories": len(seqs),
            "bound": {"depth": "every ordered sequence of length <= %d over the pool (repeats allowed), one fresh process each" % d,
-                     "pool": ["%s/%s/%d" % p for p in POOL], "alone": "every pool run alone under PYTHONHASHSEED in %s" % (list(hashseeds),)},
+                     "pool": [label_of(p) for p in POOL], "alone": "every pool run alone under PYTHONHASHSEED in %s" % (list(hashseeds),)},
            "alphabet": "a state is the fingerprint of the process-global settings (Food.conversions) after a run; a transition is one run appended to a history",
-           "samples": [{"seq": ["%s/%s/%d" % POOL[i] for i in s]} for s in (seqs[0], seqs[10], seqs[-1])],
+           "samples": [{"seq": [label_of(POOL[i]) for i in s]} for s in (seqs[0], seqs[10], seqs[-1])],
            "caps_hit": []}
     return {"coverage": cov, "violations": vs, "assumptions": ["results are bit-for-bit reproducible (same LP text => same CBC pivots), measured on the unchanged tree"]}
 
@@ -162,9 +171,9 @@ def replay(rp):
 if __name__ == "__main__":
     common.sandbox()
     i = int(sys.argv[1])
-    iso, pn, nm = POOL[i]
+    iso, pn, nm, ov = POOL[i]
     try:
-        dg, parts, unmod, conv = one_run(iso, pn, nm, "c14_alone_%d" % os.getpid())
+        dg, parts, unmod, conv = one_run(iso, pn, nm, "c14_alone_%d" % os.getpid(), ov)
         print("RESULT " + json.dumps({"digest": dg, "parts": parts}))
     except BaseException as e:
         print("RESULT " + json.dumps({"error": repr(e)[:300]}))
